@@ -41,6 +41,9 @@ func (x *X) globalPtr(g *ssa.Global) *PtrV {
 			if !declared {
 				declared = true
 				x.vc.decl(fmt.Sprintf("(declare-const %s %s)", name, s))
+				if cv, ct, ok := x.constScalarValue(g); ok {
+					x.vc.decl(fmt.Sprintf("(assert (= %s %s))", name, x.enc.constant(cv, ct).S))
+				}
 				if vals, ok := x.constArrayValues(g); ok {
 					arr := el.Underlying().(*types.Array)
 					for i, v := range vals {
